@@ -133,6 +133,12 @@ def run(ctx):
     mon_ok = [True]
     flags_ok = [True]
     f18_found = [None]
+    reported = {}
+
+    def report(key, what, rep, kf_class=None, cap=2):
+        reported[key] = reported.get(key, 0) + 1
+        if reported[key] <= cap:
+            ctx.report(key if reported[key] == 1 else "%s#%d" % (key, reported[key]), what, rep, kf_class=kf_class)
 
     def replay_dict(kind, name, scn, w, extra):
         d = {"kind": kind, "scenario_name": name, "scenario": scn.to_json(), "choices": list(w.sched.choices),
@@ -154,14 +160,14 @@ def run(ctx):
                 stats["f18_violations"] += 1
                 if f18_found[0] is None:
                     f18_found[0] = (name, scn, list(w.sched.choices), text)
-                ctx.report("kf-f18", text, replay_dict("monitor", name, scn, w, {
+                report("kf-f18", text, replay_dict("monitor", name, scn, w, {
                     "expected": "wire = concatenation of the lone responses of a prefix of the pipeline (interim responses only before their own response)",
                     "observed": text, "wire_hex": w.wire.hex()[:600], "class": "a worker thread entered send_continue()"}),
                     kf_class=KF_CLASS)
             else:
                 mon_ok[0] = False
                 stats["monitor_violations"] += 1
-                ctx.report("monitor:" + key, text, replay_dict("monitor", name, scn, w, {
+                report("monitor:" + key, text, replay_dict("monitor", name, scn, w, {
                     "expected": "C04 monitor clean", "observed": text, "wire_hex": w.wire.hex()[:600]}))
         # conformance with the model
         try:
@@ -181,13 +187,13 @@ def run(ctx):
             if not okflags:
                 flags_ok[0] = False
                 stats["model_flag_failures"] += 1
-                ctx.report("model-predicate", "a C04 predicate is false in a model state reached along a real trace",
+                report("model-predicate", "a C04 predicate is false in a model state reached along a real trace",
                            replay_dict("model-predicate", name, scn, w, {"expected": "wire/once/one/entry/quiescent all true",
                                                                           "observed": flags.get("last")}))
         else:
             conf_ok[0] = False
             stats["conformance_mismatches"] += 1
-            ctx.report("conformance:" + str(mis.get("why")), "real trace not reproduced by Model/ChanPipe.v: %s" % mis.get("why"),
+            report("conformance:" + str(mis.get("why")), "real trace not reproduced by Model/ChanPipe.v: %s" % mis.get("why"),
                        replay_dict("conformance", name, scn, w, {
                            "expected": "every observed operation is a step of the model with the same label, leading to the same abstract state",
                            "observed": mis}))
